@@ -620,6 +620,14 @@ fn c15_case(seed: u64, index: u64, md: &mut Model, rep: &mut Report) {
                 let want = gcb_expected(&store_dump(&fg.doc));
                 rep.count("c15_forced_gc_compared_with_the_transcription");
                 if ans.contains("total_ok=1") { rep.count("c15_forced_gc_stores_within_gcb_total_ok"); }
+                // the block boundaries after the commit that follows (the squash, gcb_merge_blocks): kind 0 item / 1 wiped item / 2 GC / 3 Skip
+                let bounds: String = store_dump(&fg.doc).blocks.iter().map(|(c, bs)| format!("{:x}[{}]", c, bs.iter().map(|b| match b {
+                    yrs::verif::VBlock::Item(i) => format!("{:x}+{:x}:{}", i.id.clock, i.len, if matches!(i.content, yrs::verif::VContent::Deleted(_)) { 1 } else { 0 }),
+                    yrs::verif::VBlock::GC(id, l) => format!("{:x}+{:x}:2", id.clock, l), yrs::verif::VBlock::Skip(id, l) => format!("{:x}+{:x}:3", id.clock, l) }).collect::<Vec<_>>().join(","))).collect::<Vec<_>>().join(";");
+                let api = ans.split(" api=").nth(1).map(|x| x.split(" total_ok=").next().unwrap_or("").to_string());
+                rep.count("c15_block_boundaries_after_forced_gc_compared_with_the_transcription_of_the_squash");
+                if api.as_deref() != Some(bounds.as_str()) { rep.disagree(json!({"kind": "squash after collection (GCB run, api=)", "step": k, "delete_set": ods_s, "model": api, "impl": bounds, "store": hex(&whole), "flags": gcb_flags(&vs0), "branches": gcb_branches(&vs0), "case": {"stream": 115, "index": index, "seed": seed}})); }
+                let ans = ans.split(" api=").next().unwrap_or("").to_string() + " total_ok=" + ans.split(" total_ok=").nth(1).unwrap_or("");
                 let body = ans.strip_prefix("ok ").map(|x| x.split(" total_ok=").next().unwrap_or("").to_string());
                 if body.as_deref() != Some(want.as_str()) { rep.disagree(json!({"kind": "collector transcription (GCB run)", "step": k, "delete_set": ods_s, "model": ans.chars().take(1500).collect::<String>(), "impl": want.chars().take(1500).collect::<String>(), "store": hex(&whole), "flags": gcb_flags(&vs0), "branches": gcb_branches(&vs0), "case": {"stream": 115, "index": index, "seed": seed}})); }
                 else if !ans.contains("total_ok=1") || !ans.contains("clients_ok=1") { rep.disagree(json!({"kind": "a reachable store is outside the hypotheses of gcb_collect_all_total", "answer": ans.chars().rev().take(40).collect::<String>().chars().rev().collect::<String>(), "store": hex(&whole), "flags": gcb_flags(&vs0), "branches": gcb_branches(&vs0)})); }
